@@ -51,6 +51,7 @@ type World struct {
 	Facts              map[string]bool
 	St                 *vlib.Stats
 	MaxSweeps          int
+	namePrefix         string // player / table names of a sibling tournament differ
 }
 
 func (w *World) fail(prop, sig, format string, args ...interface{}) {
@@ -100,7 +101,7 @@ func NewWorld(prop string, max, min int, st *vlib.Stats) *World {
 	w.R = regulator.NewRegulator(regulator.MaxPlayersPerTable(max), regulator.MinInitialPlayers(min),
 		regulator.WithRequestTableFn(func(players []string) (string, error) {
 			w.nextT++
-			id := fmt.Sprintf("t%d", w.nextT)
+			id := fmt.Sprintf("%st%d", w.namePrefix, w.nextT)
 			w.Log = append(w.Log, fmt.Sprintf("  newtable(%s,%d)", id, len(players)))
 			if w.Status == 0 {
 				w.fail("C19", "table-before-start", "a table is requested while the competition is pending")
@@ -123,6 +124,9 @@ func NewWorld(prop string, max, min int, st *vlib.Stats) *World {
 		regulator.WithAssignPlayersFn(func(id string, players []string) error {
 			w.Log = append(w.Log, fmt.Sprintf("  assign(%s,%d)", id, len(players)))
 			if _, ok := w.Tables[id]; !ok {
+				if w.Dead[id] {
+					w.fail("C20", "broken-table-receives-players", "%d player(s) are assigned to table %s, which was told to break and has handed its players back", len(players), id)
+				}
 				w.fail("C09", "assign-to-unknown-table", "players are assigned to table %s which does not exist", id)
 				return nil
 			}
@@ -251,7 +255,7 @@ func (w *World) Add(n int) {
 	ps := []string{}
 	for i := 0; i < n; i++ {
 		w.nextP++
-		ps = append(ps, fmt.Sprintf("p%d", w.nextP))
+		ps = append(ps, fmt.Sprintf("%sp%d", w.namePrefix, w.nextP))
 	}
 	w.Log = append(w.Log, fmt.Sprintf("add(%d)", n))
 	closed := w.Status == 2
@@ -281,6 +285,44 @@ func (w *World) Add(n int) {
 		w.fail("C09", "registration-refused", "AddPlayers(%d) in status %d failed: %v", n, w.Status, err)
 	}
 	w.Check("add")
+}
+
+// ReEnter registers again players who have been eliminated (a re-entry): they
+// are players of the tournament once more.
+func (w *World) ReEnter(n int) {
+	var ps []string
+	for _, p := range sortedKeys(w.Elim) {
+		if len(ps) < n && w.Elim[p] {
+			ps = append(ps, p)
+		}
+	}
+	if len(ps) == 0 {
+		return
+	}
+	w.Log = append(w.Log, fmt.Sprintf("re-enter(%d)", len(ps)))
+	closed := w.Status == 2
+	before := w.snap()
+	if !closed {
+		for _, p := range ps {
+			delete(w.Elim, p)
+			w.Queue[p] = true
+		}
+	}
+	w.initialAlloc = len(w.Tables) == 0 && len(w.Dead) == 0
+	var err error
+	w.guard("AddPlayers", func() { err = w.R.AddPlayers(ps) })
+	w.initialAlloc = false
+	w.Facts["re-entry"] = true
+	if closed {
+		if err == nil {
+			w.fail("C09", "registration-after-deadline-accepted", "AddPlayers(re-entry of %d) after the registration deadline returned no error", len(ps))
+		} else if after := w.snap(); after != before {
+			w.fail("C09", "refused-registration-changed-state", "refused re-entry changed the regulator: %+v -> %+v", before, after)
+		}
+	} else if err != nil {
+		w.fail("C09", "registration-refused", "AddPlayers(re-entry of %d) in status %d failed: %v", len(ps), w.Status, err)
+	}
+	w.Check("re-enter")
 }
 
 func (w *World) SetStatus(s int) {
@@ -392,7 +434,24 @@ func (w *World) Sync(id string, out, rot int) bool {
 			w.fail("C09", "release-refused", "ReleasePlayers(%s,%d) failed: %v", id, len(released), rerr)
 		}
 		if broken {
+			// each of them must now really be queued (the regulator's own queue, read
+			// through the hook) or already sit at another live table
+			realQ := map[string]bool{}
+			for _, p := range regulator.VerifWaitingQueue(w.R) {
+				realQ[p] = true
+			}
 			for _, p := range released {
+				seated := false
+				for _, t := range w.TableIDs() {
+					for _, q := range w.Tables[t] {
+						if q == p {
+							seated = true
+						}
+					}
+				}
+				if !realQ[p] && !seated {
+					w.fail("C20", "broken-table-player-lost", "table %s broke and handed %s back, but the regulator neither queues him nor has seated him elsewhere", id, p)
+				}
 				if pl := w.where(p); len(pl) != 1 {
 					w.fail("C20", "broken-table-player-lost", "after table %s broke, its player %s is in %v", id, p, pl)
 				}
